@@ -39,7 +39,7 @@ def make_node(n):
     import adsg_core as ac
     kind = n['kind']
     if kind == 'named':
-        return ac.NamedNode(n['id'])
+        return ac.NamedNode(n.get('label', n['id']))   # 'label': display name, may repeat (replicated sub-architectures)
     if kind == 'conn':
         deg = n.get('deg', {'list': [1]})
         kw = {}
